@@ -103,6 +103,9 @@ def main():
                 continue
             if a.name and a.name not in sid:
                 continue
+            if meta.get("retired"):
+                print("%-40s RETIRED (%s)" % (sid, meta["retired"][:90]))
+                continue
             status, extra = run_seeded(sid, a.tier)
             print("%-40s %s %s" % (sid, status, extra))
             sys.stdout.flush()
